@@ -30,6 +30,10 @@ RULE = (
     "every argument in equivalent spellings (region / shape / spacing / extra_coords / profile points as tuple, list, ndarray of ints or "
     "floats, Python and numpy scalars incl. extra_coords exactly 0 / 0.0; sizes and seeds as int / np.int64 / RandomState; names as bare "
     "string, list, tuple; projections as callable object, plain function, functools.partial); "
+    "large counts (grids of 2.5e5..6e5 nodes with row counts that are no multiple of small block heights - 700x600, 1201x501 from a spacing, "
+    "530x990 projected, 641x479 Trend, ... - and scatter / profile with > 1e5 points, every node and row compared); concurrent calls "
+    "(2..4 threads calling grid / scatter / profile on ONE gridder at the same time with different regions, same shape, different "
+    "projections, predict() meeting at a rendezvous so that the calls overlap); "
     "plus call histories on ONE gridder object (18 interleaved grid/profile/scatter calls in which dims, data_names, projection, region, "
     "extra_coords and coordinates= are given in one call and omitted in the next, both registrations and adjust modes, refits on data with "
     "another bounding box, explicit coordinate arrays edited in place between calls, every returned array overwritten before the next / an "
@@ -76,7 +80,14 @@ _QUICK_FLOORS = {
     "class:history_returned_arrays_overwritten": 440, "class:history_call_profile": 90, "class:history_call_scatter": 80,
     "class:profile_projection_affine": 110, "class:profile_projection_monotone_nonlinear": 80, "class:scatter_projection_affine": 100,
 }
-FLOORS = {"quick": dict(_QUICK_FLOORS), "thorough": {k: 20 * v for k, v in _QUICK_FLOORS.items()}}
+_SIZE_AND_THREAD_FLOORS = {  # (quick, thorough): the large-count and concurrency streams scale differently from the rest
+    "class:large_grid_over_2**18_nodes": (2, 16), "class:large_scatter_and_profile_over_1e5_points": (1, 2),
+    "class:threads_concurrent_calls": (35, 600), "class:threads_predict_calls_overlapped": (5, 60), "class:threads_call_grid": (4, 60),
+    "class:threads_call_scatter": (2, 30), "class:threads_call_profile": (2, 30), "class:threads_cases_with_injected_yields": (2, 30),
+    "yields_injected": (100, 2000),
+}
+FLOORS = {"quick": dict(_QUICK_FLOORS, **{k: v[0] for k, v in _SIZE_AND_THREAD_FLOORS.items()}),
+          "thorough": dict({k: 20 * v for k, v in _QUICK_FLOORS.items()}, **{k: v[1] for k, v in _SIZE_AND_THREAD_FLOORS.items()})}
 JOBS = {"quick": 1, "thorough": 8}
 CASE_TIMEOUT_S = 120
 
@@ -87,9 +98,10 @@ REAL_KINDS = ["spline", "trend", "kneighbors", "chain", "chain_reduce", "vector2
 
 def plan(tier):
     if tier == "quick":
-        return collections.OrderedDict(analytic_grid=150, analytic_coords=70, analytic_profile=60, analytic_scatter=45, real=64, nested=8, history=48)
+        return collections.OrderedDict(analytic_grid=150, analytic_coords=70, analytic_profile=60, analytic_scatter=45, real=64, nested=8, history=48,
+                                       large=5, threads=8)
     return collections.OrderedDict(analytic_grid=3000, analytic_coords=1400, analytic_profile=1200, analytic_scatter=900, real=1280, nested=160,
-                                   history=960)
+                                   history=960, large=48, threads=160)
 
 
 # ----------------------------------------------------------------------
@@ -726,6 +738,10 @@ def run_case(run, tap, stream, index, rng):
             _stream_nested(run, rng, vd)
         elif stream == "history":
             _stream_history(run, rng, vd, HISTORY_KINDS[index % len(HISTORY_KINDS)])
+        elif stream == "large":
+            _stream_large(run, rng, vd, LARGE_KINDS[index % len(LARGE_KINDS)])
+        elif stream == "threads":
+            _stream_threads(run, rng, index)
 
 
 def _stream_analytic_grid(run, rng):
@@ -981,6 +997,131 @@ def _stream_nested(run, rng, vd):
     board.grid(shape=(6, 9))
     board.scatter(size=25, random_state=int(rng.integers(0, 1000)))
     board.profile((100.0, -2500.0), (3900.0, -200.0), 15)
+
+
+LARGE_KINDS = ["shape_700x600", "spacing_1201x501", "projection_530x990", "trend_641x479", "scatter_profile_1e5", "pixel_603x701",
+               "coordinates_517x509", "vector_389x677"]
+
+
+def _stream_large(run, rng, vd, kind):
+    """
+    Large counts (> 2**18 nodes / > 1e5 points, row counts that are no multiple of small block heights): branches that exist only
+    above a size threshold. The monitors compare EVERY node / row, the last rows and columns included.
+    """
+    region, scale = G.gen_region(rng)
+    w, e, s, n = region
+    gridder, n_comp = new_analytic(rng, scale, n_components=2 if kind == "shape_700x600" else None)
+    gridder.fit((np.array([w, e]), np.array([s, n])), None)
+    register(gridder, region)
+    if kind == "shape_700x600":
+        grid = gridder.grid(shape=(700, 600), **G.gen_names(rng, n_comp))
+    elif kind == "spacing_1201x501":
+        grid = gridder.grid(spacing=((n - s) / 1200, (e - w) / 500), extra_coords=0.0)
+    elif kind == "projection_530x990":
+        grid = gridder.grid(shape=(530, 990), projection=G.spell_projection(rng, G.gen_projection(rng, region)), extra_coords=[3.5])
+    elif kind == "pixel_603x701":
+        grid = gridder.grid(region=[w, e + 0.3 * (e - w), s, n], shape=(603, 701), pixel_register=True, dims=("lat", "lon"))
+    elif kind == "coordinates_517x509":
+        e_vec, n_vec = G.gen_axis(rng, 509, w, e), G.gen_axis(rng, 517, s, n)
+        coordinates = (e_vec, n_vec) if rng.random() < 0.5 else G.broadcast_mesh(e_vec, n_vec)
+        grid = gridder.grid(coordinates=coordinates, projection=G.gen_projection(rng, region) if rng.random() < 0.5 else None)
+    elif kind in ("trend_641x479", "vector_389x677"):
+        east, north = gen.cloud(rng, 60, scale=gen.log_uniform(rng, 1e-1, 1e5), offset_factor=float(rng.choice([0.0, 1.0, 30.0])))
+        data = gen.smooth_field(rng, east, north, amplitude=gen.log_uniform(rng, 1e-1, 1e3))
+        if kind == "trend_641x479":
+            real = vd.Trend(degree=2).fit((east, north), data)
+            shape = (641, 479)
+        else:
+            real = vd.Vector([vd.Trend(degree=1), vd.Trend(degree=2)]).fit((east, north), (data, gen.smooth_field(rng, east, north)))
+            shape = (389, 677)
+        register(real, (east.min(), east.max(), north.min(), north.max()))
+        grid = real.grid(shape=shape)
+    else:
+        table = gridder.scatter(size=150001, random_state=int(rng.integers(0, 2 ** 31 - 1)), projection=G.gen_projection(rng, region))
+        p1, p2 = gen_profile_points(rng, region)
+        table = gridder.profile(p1, p2, 120001, projection=G.gen_projection(rng, region) if rng.random() < 0.5 else None)
+        run.count("class:large_scatter_and_profile_over_1e5_points")
+        run.sample("large:" + kind, {"rows": len(table), "columns": [str(c) for c in table.columns]})
+        return
+    nodes = int(np.prod([grid.sizes[d] for d in grid.sizes]))
+    run.count("class:large_grid_over_2**18_nodes" if nodes > 2 ** 18 else "class:large_grid_smaller_than_intended")
+    run.count("class:large_" + kind)
+    run.sample("large:" + kind, {"sizes": {str(k): int(v) for k, v in grid.sizes.items()}, "variables": [str(v) for v in grid.data_vars]})
+
+
+def _stream_threads(run, rng, index):
+    """
+    Concurrent calls on ONE gridder instance: several threads call grid / scatter / profile at the same time with different regions
+    (same shape) and different projections; predict() of the gridder waits at a rendezvous so that the calls overlap. Every return is
+    judged by the monitors on its own (its own region's coordinate vectors, its own nodes' values).
+    """
+    from .. import core
+
+    region, scale = G.gen_region(rng)
+    w, e, s, n = region
+    gridder, n_comp = new_analytic(rng, scale)
+    gridder.fit((np.array([w, e]), np.array([s, n])), None)
+    register(gridder, region)
+    n_threads = int(rng.choice([2, 3, 4]))
+    mode = ["grid", "scatter", "profile", "mixed", "grid_large"][index % 5]
+    # about half of the cases: GIL hand-offs injected at random statement starts inside the verde sources (no large grids: 3-15x
+    # slower); of those, half rely on the injection alone (no rendezvous inside predict)
+    inject = mode != "grid_large" and index % 2 == 1
+    if mode != "grid_large" and not (inject and index % 4 == 1):
+        G.SYNC[gridder] = G.Rendezvous(n_threads, timeout=0.05)
+    shape = (int(rng.integers(3, 12)), int(rng.integers(3, 12))) if mode != "grid_large" else (300, 401)
+    size = int(rng.choice([5, 20, 60]))
+    calls = []
+    for k in range(n_threads):
+        shift_e, shift_n = (k + 1) * 1.37 * (e - w), -(k + 1) * 0.61 * (n - s)
+        box = [w + shift_e, e + shift_e + 0.2 * k * (e - w), s + shift_n, n + shift_n + 0.1 * k * (n - s)]
+        projection = G.spell_projection(rng, G.gen_projection(rng, box)) if rng.random() < 0.7 else None
+        extra = [float(k), 10.0 * k] if rng.random() < 0.5 else None
+        which = mode if mode in ("grid", "scatter", "profile") else ("grid" if mode == "grid_large" else ["grid", "scatter", "profile"][k % 3])
+        if which == "grid":
+            kwargs = dict(region=box, shape=shape, projection=projection, pixel_register=bool(k % 2))
+            if extra is not None:
+                kwargs["extra_coords"] = extra
+            if k >= 1:
+                kwargs["dims"] = ("lat_%d" % k, "lon_%d" % k)
+            calls.append(lambda kwargs=kwargs: gridder.grid(**kwargs))
+        elif which == "scatter":
+            kwargs = dict(region=box, size=size, random_state=int(rng.integers(0, 2 ** 31 - 1)), projection=projection)
+            if extra is not None:
+                kwargs["extra_coords"] = extra
+            calls.append(lambda kwargs=kwargs: gridder.scatter(**kwargs))
+        else:
+            p1, p2 = gen_profile_points(rng, box)
+            kwargs = dict(projection=projection)
+            if extra is not None:
+                kwargs["extra_coords"] = extra
+            calls.append(lambda p1=p1, p2=p2, kwargs=kwargs: gridder.profile(p1, p2, size, **kwargs))
+        run.count("class:threads_call_" + which)
+
+    def quiet(fn):
+        def inner():
+            with warnings.catch_warnings():
+                warnings.simplefilter("ignore")
+                return fn()
+        return inner
+
+    rounds = 4 if mode != "grid_large" else 2
+    results = core.run_threads([quiet(fn) for fn in calls], rounds=rounds, timeout=100, yield_probability=0.25 if inject else 0.0, seed=index)
+    if inject:
+        run.count("class:threads_cases_with_injected_yields")
+        run.count("yields_injected", getattr(core.run_threads, "yields_injected", 0) - run.counters.get("yields_injected", 0))
+    sync = G.SYNC.pop(gridder, None)
+    if sync is not None:
+        run.count("class:threads_predict_calls_overlapped", sync.met)
+    run.count("class:threads_mode_" + mode)
+    run.count("class:threads_concurrent_calls", len(calls) * rounds)
+    for _, exc in results:
+        if isinstance(exc, TimeoutError):
+            run.note_inconclusive("threads: a concurrent call did not finish: %s" % exc)
+        elif exc is not None:
+            raise exc
+    run.sample("threads:" + mode, {"threads": n_threads, "rounds": rounds, "shape": list(shape), "mode": mode,
+                                   "predict_rendezvous_met": None if sync is None else sync.met})
 
 
 HISTORY_KINDS = ["analytic", "analytic", "spline", "analytic", "trend", "analytic", "chain", "analytic"]
